@@ -136,6 +136,10 @@ extern "C" int h_c17() {
       std::string pn("P"); pn += char('0' + i % 5);
       Param p(pn, std::string(250, 'x')); p.set(std::vector<int>() = {i}); c.parameter(g, p);
     }
+    // one point in one frame: the data section must still be found behind that many blocks
+    set_rate(c, "POINT", 100.f); pn.push_back("pa"); c.point("pa"); P = 1; F = 1;
+    { Frame fr; Points pts; Point pt; pt.name("pa"); float x = __vp_sym_f32("x"); pt.x(x); pt.y(2.5f); pt.z(-3.5f); pt.residual(0.5f); pts.point(pt); fr.add(pts); c.frame(fr);
+      in.push_back(x); in.push_back(2.5f); in.push_back(-3.5f); in.push_back(0.5f); }
   } else if (kind == 10) {    // v groups in total (a fresh object has 3): group ids are signed bytes, a group record carries -id and its parameters +id
     for (int i = 3; i < v; ++i) {
       std::string g("G"); g += char('A' + i / 26 % 26); g += char('A' + i % 26);
